@@ -235,28 +235,25 @@ Print M.
 """
 
 
-def run_cases(name, texts, observations, shard=400):
+def run_cases(name, texts, observations, shard=250):
     """Evaluate the Coq model on the cases; returns the list of indices where model and observation differ,
     or None if coqc failed."""
-    bad = []
+    paths, offs = [], []
     for s in range(0, len(texts), shard):
         body = ";\n".join(case_term(t, o) for t, o in zip(texts[s:s + shard], observations[s:s + shard]))
         path = os.path.join(C.GEN, "%s_%d.v" % (name, s // shard))
         with open(path, "w") as f:
             f.write(CASES_V % body)
-        ok, out = C.coqc_file(path)
+        paths.append(path)
+        offs.append(s)
+    bad = []
+    for (ok, out), s in zip(C.coqc_many(paths), offs):
         if not ok:
             return None, out
-        i = out.find("M = ")
-        if i < 0:
+        m = C.parse_mismatches(out)
+        if m is None:
             return None, out
-        lst = out[i + 4:].split(":")[0].strip()
-        lst = lst.replace("%N", "").strip()
-        if lst != "[]":
-            for x in lst.strip("[]").split(";"):
-                x = x.strip()
-                if x:
-                    bad.append(s + int(x))
+        bad.extend(s + x for x in m)
     return bad, ""
 
 
